@@ -1,0 +1,85 @@
+//go:build verif
+
+package stream
+
+import (
+	"crypto/sha256"
+	"encoding/hex"
+	"encoding/json"
+	"fmt"
+	"os"
+	"path/filepath"
+	"sync"
+	"sync/atomic"
+)
+
+// Verification hooks (build tag verif): one event per specification action of
+// /verif/spec/SecureChannel.tla, emitted at the linearization point of the
+// stream operation. Streams are single-threaded per direction by contract; the
+// per-object sequence number orders the events of one stream.
+const verifOn = true
+
+type verifState struct {
+	id  uint64
+	seq uint64
+}
+
+// VerifSink receives every event when non-nil.
+var VerifSink func(rec map[string]any)
+
+var (
+	verifObj  uint64
+	verifMu   sync.Mutex
+	verifFile *os.File
+)
+
+func init() {
+	dir := os.Getenv("CEDAR_VERIF_TRACE_DIR")
+	if dir == "" {
+		return
+	}
+	_ = os.MkdirAll(dir, 0o755)
+	f, err := os.OpenFile(filepath.Join(dir, fmt.Sprintf("stream-%d.ndjson", os.Getpid())), os.O_CREATE|os.O_WRONLY|os.O_APPEND, 0o644)
+	if err != nil {
+		return
+	}
+	verifFile = f
+	VerifSink = func(rec map[string]any) {
+		b, err := json.Marshal(rec)
+		if err != nil {
+			return
+		}
+		verifMu.Lock()
+		_, _ = verifFile.Write(append(b, '\n'))
+		verifMu.Unlock()
+	}
+}
+
+// VerifFP is a short fingerprint of a byte string (keys, IVs, wire frames).
+func VerifFP(b []byte) string {
+	if len(b) == 0 {
+		return ""
+	}
+	h := sha256.Sum256(b)
+	return hex.EncodeToString(h[:6])
+}
+
+func (s *Stream) verifEv(ev string, kv ...any) {
+	sink := VerifSink
+	if sink == nil {
+		return
+	}
+	if s.verif.id == 0 {
+		s.verif.id = atomic.AddUint64(&verifObj, 1)
+	}
+	s.verif.seq++
+	rec := map[string]any{"o": s.verif.id, "q": s.verif.seq, "ev": ev,
+		"keyed": s.gcm != nil, "enc": s.encrypted, "k": VerifFP(s.encryptKey),
+		"sctr": s.encryptCounter, "rctr": s.decryptCounter,
+		"sfirst": !s.finishedSendAAD, "rfirst": !s.finishedRecvAAD,
+		"sbuf": len(s.sendBuffer), "seom": s.sendEOM, "inmsg": s.inMessage, "rbuf": len(s.receiveBuffer)}
+	for i := 0; i+1 < len(kv); i += 2 {
+		rec[kv[i].(string)] = kv[i+1]
+	}
+	sink(rec)
+}
